@@ -306,6 +306,23 @@ class UnitFile:
                             for kk, vv in c.optional_loops.items()}
                     c.loops[ordinal] = spec
                 spec = c.loops[ordinal]
+                if t.text == "while" and k + 1 < len(toks) and re.fullmatch(r"__i\d+", toks[k + 1].text or ""):
+                    # `{I}` in an explicit loop spec names the index variable of a rule-generated index loop
+                    iv_ = toks[k + 1].text
+                    def _sub1(x):
+                        if isinstance(x, str):
+                            return x.replace("{I}", iv_)
+                        if isinstance(x, tuple):
+                            return tuple(_sub1(y) for y in x)
+                        if isinstance(x, Clause):
+                            return Clause(x.name, x.text.replace("{I}", iv_), x.props)
+                        return x
+
+                    def _sub(vv):
+                        if isinstance(vv, list):
+                            return [_sub1(x) for x in vv]
+                        return _sub1(vv)
+                    spec = {kk: _sub(vv) for kk, vv in spec.items()}
                 # loop body `{`: first `{` at depth 0 after the keyword
                 depth = 0
                 j = k + 1
